@@ -169,7 +169,7 @@ macro_rules! impl_bop {
                 let d = self.d() + rhs.d() - self.d() * rhs.d();
                 let u = self.u() * rhs.u()
                     + ((1.0 - rhs.base_rate) * self.b() * rhs.u()
-                        + (1.0 - self.b()) * rhs.b() * self.u())
+                        + (1.0 - self.base_rate) * rhs.b() * self.u())
                         / (1.0 - a);
                 Self::new(b, d, u, a)
             }
@@ -183,7 +183,7 @@ macro_rules! impl_bop {
                         + rhs.base_rate * (1.0 - self.base_rate) * rhs.d() * self.u())
                         / a;
                 let u = self.u() * rhs.u()
-                    + (rhs.base_rate * self.b() * rhs.u() + self.base_rate * rhs.b() * self.u())
+                    + (rhs.base_rate * self.d() * rhs.u() + self.base_rate * rhs.d() * self.u())
                         / a;
                 Self::new(b, d, u, a)
             }
